@@ -4,7 +4,7 @@
 One run = proof step (Coq cone of Props/Cxx.v, Print Assumptions, forbidden-token
 scan) + correspondence run (model vs. the implementation built from /repo's working
 tree, same cases) + the property's own implementation-level relations + verdict."""
-import json
+import re, json
 import os
 import random
 import sys
@@ -1325,6 +1325,15 @@ def case_variants(rng, s, n):
     return out
 
 
+def head_end(s, meta_head):
+    """End of the part of a (possibly mutated) stream whose letter case may be varied: never beyond the
+    first empty line actually present, so that body bytes are not touched (a mutation can move the end of
+    the header block before the generator's own idea of it)."""
+    m = re.search(rb"\n\r*\n", s)
+    e = m.end() if m else len(s)
+    return min(e, meta_head, len(s))
+
+
 class C18(Prop):
     id = "C18"
 
@@ -1332,13 +1341,13 @@ class C18(Prop):
         rng = ctx.rng
         nv = ctx.n(4, 12)
         for s, meta in req_streams(ctx, ctx.n(150, 1500), p_odd=0.03, mutate_frac=0.1):
-            head = s[:meta["head"]] if len(s) >= meta["head"] else s
+            head = s[:head_end(s, meta["head"])]
             g = ("case", "req", s)
             ctx.add("req", ["d", "d", "d", dels([s])], group=g)
             for hv in case_variants(rng, head, nv):
                 ctx.add("req", ["d", "d", "d", dels([hv + s[len(head):]])], group=g)
         for s, meta in resp_streams(ctx, ctx.n(200, 2000), p_odd=0.03, mutate_frac=0.1):
-            head = s[:meta["head"]] if len(s) >= meta["head"] else s
+            head = s[:head_end(s, meta["head"])]
             g = ("case", "resp", s)
             ctx.add("resp", [dels([s])], group=g)
             for hv in case_variants(rng, head, nv):
